@@ -1,0 +1,10 @@
+//go:build verif
+
+package renderer
+
+// VerifZigzagEncode exposes the zigzag encoding used for tile geometry.
+func VerifZigzagEncode(value int) uint32 { return zigzagEncode(value) }
+
+// VerifZigzagDecode exposes the inverse of the zigzag encoding used for tile
+// geometry.
+func VerifZigzagDecode(value uint32) int { return zigzagDecode(value) }
